@@ -531,6 +531,9 @@ def section_relevant(prop, m):
             if pat == opk or pat == opk + ':' + sub or pat == '*':
                 return True
         return False
+    if m['kind'] == 'events' and op.startswith('export') and prop == 'C19':
+        # the exported (decoded) records differ from the stored ones as the model reads them
+        return True
     if m['kind'] == 'events' and op.startswith('query'):
         sub = op.split()[1] if len(op.split()) > 1 else ''
         return any(pat in ('query', 'query:' + sub, '*') for pat in PROPS[prop].get('result_ops', []))
@@ -562,12 +565,18 @@ def concrete_failure(prop, m):
         return True
     if prop == 'C11' and wrongly_accepted and any(k in op for k in ('nodeRegister', 'nodeUpdate', 'nodeSubscribe')):
         return True
+    if prop == 'C19' and m.get('kind') == 'events' and op.startswith('export'):
+        # a stored record that does not decode to the value it was written from (the export lists every record)
+        return True
     if prop == 'C14' and m.get('kind') == 'state' and op.startswith('tx swap'):
         # an accepted swap mints exactly amount/100 to the receiver and records it (Props/C14)
         return True
     if prop == 'C05' and m.get('kind') == 'state' and (op.startswith('tx planSubscribe') or op.startswith('tx nodeSubscribe')):
         # an accepted purchase moves exactly quote x quantity / the plan price, split into the exactly rounded fee
         # and the rest (Props/C05, single-step theorems about the model): a different movement is a failing purchase
+        return True
+    if prop == 'C05' and op.startswith('begin') and m.get('kind') in ('state', 'events') and 'PayForPayout' in json.dumps(m) + ' '.join(m.get('only_impl', []) + m.get('only_model', [])) + str(m.get('impl', '')):
+        # the hourly payout of the model is the quoted price, split into the exactly rounded fee and the rest (Props/C05)
         return True
     if prop == 'C15' and (op.startswith('mintprobe') or (m.get('kind') == 'state' and all(x in ('custommint', 'sdkmint') for x in m.get('sections', ['?'])))):
         # the model's parameters after BeginBlock are those of the latest due entry (Props/C15)
